@@ -604,6 +604,48 @@ def builder_rule(rep, prog, cfg):
     rep.floor(rule, cfg + "/by-value builder methods", n, 20)
 
 
+KEEP_OLD = ("get_or_insert", "get_or_insert_with", "get_or_insert_default", "or_insert", "or_insert_with", "or_default", "or", "or_else", "xor")
+
+
+def setter_rule(rep, prog, cfg):
+    """A by-value setter (`fn filter(mut self, filter) -> Self`, documented "overwrites") stores its parameter: the parameter must
+    not be handed, together with a `&mut` of a field of self, to a keep-the-old-value operation (`Option::get_or_insert`,
+    `Entry::or_insert`, `Option::or`): the second call of the setter would then be ignored and the request rendered with the first
+    value."""
+    rule = "C15.shape"
+    n = 0
+    for b in prog.bodies.values():
+        if b.crate != "mpd_client" or b.kind != "AssocFn" or b.raw.get("derived") or b.mir["argc"] < 2:
+            continue
+        nm = norm(b.name)
+        if not nm.startswith("mpd_client::commands::definitions::") or b.local_ty(1).startswith("&") or \
+                "mpd_client::commands::definitions::" not in b.local_ty(0):
+            continue
+        n += 1
+        fl = Flow(b)
+        bad = []
+        for bb, t in b.calls():
+            short = (callee_names(t) or ["?"])[0].rsplit("::", 1)[-1].split("::<")[0]
+            if short not in KEEP_OLD or not t["args"]:
+                continue
+            recv, _ = fl.sources([op_local(t["args"][0])] if op_local(t["args"][0]) is not None else [], follow_mut=False)
+            from_self = any(x[0] == "param" and x[1] == 1 for x in recv)
+            args_from_param = False
+            for a in t["args"][1:]:
+                la = op_local(a)
+                if la is None:
+                    continue
+                leaves, _ = fl.sources([la], through_call=lambda t2, k=None: tuple(range(4)), follow_mut=False)
+                if any(x[0] == "param" and x[1] >= 2 for x in leaves):
+                    args_from_param = True
+            if from_self and args_from_param:
+                bad.append(short)
+        rep.check(not bad, rule, "%s/%s stores its parameter" % (cfg, nm.rsplit("::", 2)[-2] + "::" + nm.rsplit("::", 1)[-1]), b.loc(b.span),
+                  "%s hands its parameter to `%s` on a field of the command: a value set earlier is kept and the new one dropped, so the request is "
+                  "rendered with a parameter other than the one last given" % (nm, ", ".join(bad)))
+    rep.floor(rule, cfg + "/by-value setters", n, 15)
+
+
 def choke_rule(rep, prog, cfg):
     rule = "C15.choke"
     aa = body_by_name(prog, "mpd_protocol::command::Command::add_argument")
@@ -763,6 +805,7 @@ def run(rep, progs, tier):
     for cfg, prog in progs.items():
         shape_rule(rep, prog, cfg)
         builder_rule(rep, prog, cfg)
+        setter_rule(rep, prog, cfg)
         render_rule(rep, prog, cfg)
         enums_rule(rep, prog, cfg)
         overflow_rule(rep, prog, cfg)
